@@ -30,13 +30,15 @@ func (g *Gen) libModel(f *ssa.Function, c *ssa.CallCommon, st *State) ([]Val, bo
 	// ---------------- time (T-time): a Time is its ns since the Unix epoch (mathematical Int)
 	case "time.Now":
 		g.W.usedLib[name] = true
-		if v, ok := st.ghosts["$now"]; ok {
-			return []Val{v}, true
-		}
 		n := g.fresh("now")
 		g.declare(n, "Int")
+		if v, ok := st.ghosts["$now"]; ok {
+			g.assume("true", fmt.Sprintf("(>= %s %s)", n, v.T)) // the clock is monotone
+		}
 		g.modelVars = append(g.modelVars, ModelVar{Name: "time.Now()", Term: n, Sort: "Int"})
-		return []Val{{T: n, S: sInt, G: rt()}}, true
+		r := Val{T: n, S: sInt, G: rt()}
+		st.ghosts["$now"] = r
+		return []Val{r}, true
 	case "(time.Time).Add":
 		return one(Val{T: fmt.Sprintf("(+ %s %s)", g.argVal(c, 0, st).T, g.asInt(g.argVal(c, 1, st))), S: sInt, G: rt()})
 	case "(time.Time).Sub":
